@@ -304,6 +304,10 @@ class SubprocessStreamReaderWrapperContextManager(
         await self.proc.wait()
         if self.stream:
             await self.stream.close()
+        if exc_type is None and self.proc.returncode != 0:
+            raise WorkflowExecutionException(
+                f"Stream reader process exited with status {self.proc.returncode}"
+            )
 
 
 class SubprocessStreamWriterWrapper(BaseStreamWrapper):
@@ -336,6 +340,10 @@ class SubprocessStreamWriterWrapperContextManager(
         if self.stream:
             await self.stream.close()
         await self.proc.wait()
+        if exc_type is None and self.proc.returncode != 0:
+            raise WorkflowExecutionException(
+                f"Stream writer process exited with status {self.proc.returncode}"
+            )
 
 
 class SubprocessShell(BaseShell):
